@@ -110,6 +110,8 @@ def gen(rng, tier):
         yield {"family": "cli.keeps-file", "kind": "keeps", "key": key, "value": _value(rng, tag, n), "tag": tag,
                "other": [other[0], other[1][0], other[1][1], _value(rng, other[1][0], n)]}
     binds = ["127.0.0.{a}:0", "127.0.0.{a}", "[::1]:0", "[::1]", "localhost:0", "unix:{tmp}/s.sock", "fd://stream", "fd://dgram-as-stream",
+             # (inherited descriptors for a datagram bind - quic_bind: a UDP one is taken, a TCP one is refused)
+             "fd://dgram|dgram", "fd://stream|dgram",
              "127.0.0.{a}:0|dgram", "[::]:0", "0.0.0.0:0",
              # relative unix paths (resolved against the working directory, which the check moves into its scratch directory): the path is
              # everything after the "unix:" prefix, whatever characters it starts with
@@ -546,24 +548,25 @@ def _check_bind(case, tmp, tally):
     holder = []
     try:
         if b.startswith("fd://"):
-            typ = socket.SOCK_DGRAM if "dgram" in b else socket.SOCK_STREAM
+            typ = socket.SOCK_DGRAM if b.startswith("fd://dgram") else socket.SOCK_STREAM
             pre = socket.socket(socket.AF_INET, typ)
             pre.bind(("127.0.0.1", 0))
             holder.append(pre)
             bindstr = "fd://%d" % pre.fileno()
             tally.clause("bind")
+            want = socket.SOCK_DGRAM if dgram else socket.SOCK_STREAM
             try:
-                socks = cfg._create_sockets([bindstr], socket.SOCK_STREAM)
-                if typ == socket.SOCK_DGRAM:
-                    out.append({"clause": "bind", "sig": "C19.bind/fd-type-not-checked", "detail": "a datagram fd was accepted for a stream bind"})
+                socks = cfg._create_sockets([bindstr], want)
+                if typ != want:
+                    out.append({"clause": "bind", "sig": "C19.bind/fd-type-not-checked", "detail": "a %s descriptor was accepted for a %s bind" % (typ.name, want.name)})
                 else:
                     s = socks[0]
-                    if s.getsockname() != pre.getsockname() or s.type != socket.SOCK_STREAM:
-                        out.append({"clause": "bind", "sig": "C19.bind/fd", "detail": "fd socket %r != %r" % (s.getsockname(), pre.getsockname())})
+                    if s.getsockname() != pre.getsockname() or s.type != want:
+                        out.append({"clause": "bind", "sig": "C19.bind/fd", "detail": "fd socket %r (type %r) != %r (%s)" % (s.getsockname(), s.type, pre.getsockname(), want.name)})
                     s.detach()
             except Exception as e:
-                if typ == socket.SOCK_STREAM:
-                    out.append({"clause": "bind", "sig": "C19.bind/fd-error", "detail": repr(e)})
+                if typ == want:
+                    out.append({"clause": "bind", "sig": "C19.bind/fd-error", "detail": "a %s descriptor for a %s bind: %r" % (typ.name, want.name, e)})
             return out
         _AUDIT["events"].clear()
         _AUDIT["on"] = True
